@@ -1108,7 +1108,15 @@ func (r *run) stepLate(op *Op) {
 			return
 		}
 		if r.sc.Delay && r.hasMon && err == nil {
-			r.viol("C08", "EnableVerification after shutdown reported success although nothing can answer it")
+			// C09 as well: a success must mean "verified exactly the installed config"; nothing verified here
+			r.mu.Lock()
+			nv := len(r.verifyLog) - r.verifSeen
+			r.mu.Unlock()
+			tag := "C08"
+			if r.skipVerify {
+				tag = "C08,C09"
+			}
+			r.viol(tag, "EnableVerification after shutdown reported success although nothing can answer it (delay still in force=%v, Verify called %d time(s) by this call, installed config valid=%v)", r.skipVerify, nv, r.cfgs[r.cur].val.Limit >= 0)
 			return
 		}
 		r.mu.Lock()
